@@ -288,12 +288,12 @@ def run_case(case) -> Outcome:
     intended = dict(cfg)
     try:
         if src == "attrs":
-            _apply_attrs(pmap, cfg)
+            _apply_attrs(pmap, cfg, case)
             dev.log.clear()
             pmap.save()
         elif src == "live_modify":
             pmap.read()
-            _apply_attrs(pmap, cfg)
+            _apply_attrs(pmap, cfg, case)
             dev.log.clear()
             pmap.save()
         elif src == "from_od":
@@ -411,7 +411,18 @@ def run_case(case) -> Outcome:
                                f"{'29bit' if cob_id > 0x7FF else '11bit'}/map{len(intended['map'])}", D)
 
 
-def _apply_attrs(pmap, cfg):
+def _names(case):
+    out = {}
+    for o in case["app"]:
+        if o["kind"] == "var":
+            out[(o["index"], 0)] = (o["name"], None)
+        else:
+            for m in o["members"]:
+                out[(o["index"], m["sub"])] = (o["name"], m["name"])
+    return out
+
+
+def _apply_attrs(pmap, cfg, case=None):
     pmap.cob_id = cfg["cob_id"]
     pmap.enabled = cfg["enabled"]
     pmap.rtr_allowed = cfg["rtr_allowed"]
@@ -420,8 +431,23 @@ def _apply_attrs(pmap, cfg):
     pmap.event_timer = cfg.get("event_timer")
     pmap.sync_start_value = cfg.get("sync_start_value")
     pmap.clear()
-    for (index, sub, ln) in cfg["map"]:
-        pmap.add_variable(index, sub)
+    names = _names(case) if case else {}
+    forms = (case or {}).get("addforms") or []
+    for k, (index, sub, ln) in enumerate(cfg["map"]):
+        form = forms[k % len(forms)] if forms else "num"
+        oname, mname = names.get((index, sub), (None, None))
+        if form == "num_len":
+            pmap.add_variable(index, sub, ln)
+        elif form == "dotted" and mname is not None:
+            pmap.add_variable(f"{oname}.{mname}")              # qualified name, default sub-index
+        elif form == "name" and oname is not None and mname is None:
+            pmap.add_variable(oname)
+        elif form == "name_member" and mname is not None:
+            pmap.add_variable(oname, mname)
+        elif form == "index_member" and mname is not None:
+            pmap.add_variable(index, mname)
+        else:
+            pmap.add_variable(index, sub)
 
 
 # ---- generation ---------------------------------------------------------------------
@@ -489,7 +515,9 @@ def case_strategy(draw):
         pre["cob"] |= NO_RTR
     source = draw(st.sampled_from(["attrs", "attrs", "live_modify", "from_od", "load_configuration"]))
     case = {"dir": direction, "number": number, "app": app, "dict_subs": dict_subs, "device_subs": device_subs,
-            "cfg": cfg, "pre": pre, "source": source}
+            "cfg": cfg, "pre": pre, "source": source,
+            "addforms": draw(st.lists(st.sampled_from(["num", "num_len", "dotted", "name", "name_member",
+                                                       "index_member"]), min_size=1, max_size=4))}
     if source == "attrs" and draw(st.integers(0, 3)) == 0:
         cfg["trans_type"] = None
     if source in ("from_od", "load_configuration"):
